@@ -151,13 +151,15 @@ impl Property for C08 {
             Segment::enumerated("every-n<=60-every-row", 61 * N_ROWS as u64, &[2]),
             Segment::random("random-configs-n<=3000", tier.pick(2_000, 30_000), &[0], 24, 100),
             Segment::random("regime-switches", tier.pick(32, 500), &[1], 24, 100),
+            // pure peeling regimes of the fuse logics, low- and high-memory peelers (see c07::peeling_spec)
+            Segment::enumerated("peeling-regimes", tier.pick(10, 48), &[3]),
         ]
     }
     fn watchdog_s(&self) -> u64 {
         300
     }
     fn rule(&self) -> &'static str {
-        "case = (row of the 20-row builder type table, n, key style, hash width b = W::BITS for slice backends and b in {1,2,3,5,7,8,9,12,16,31,32,33,63,64} (<= W::BITS) for bit-field backends, configuration as in C07) decoded from bytes; plus every n in 0..=60 on every row; plus sizes around the regime switches. Oracle: contains(k) and filter[k] true for every inserted key, len()==n, hash_bits()==b, contains_unaligned agrees where admissible; non-members are a structurally disjoint family (odd integers / 'q'-prefixed strings): the number of positives among N probes (N = 20000 for b<=8, 50*2^b for b<=12) must lie within N*2^-b +- (7*sqrt(N p (1-p)) + 4), two-sided when N*2^-b >= 50. Non-trivial: n>=1 and at least 10^4 probes; distinct = distinct hash of the decoded spec."
+        "case = (row of the 20-row builder type table, n, key style, hash width b = W::BITS for slice backends and b in {1,2,3,5,7,8,9,12,16,31,32,33,63,64} (<= W::BITS) for bit-field backends, configuration as in C07) decoded from bytes; plus every n in 0..=60 on every row; plus sizes around the regime switches; plus an enumerated segment of filters in the pure peeling regimes (800001 keys on the sharded logics, 100001..150001 on FuseLge3NoShards, 10^6..2*10^7 in the thorough tier) with the low- and high-memory peelers. Oracle: contains(k) and filter[k] true for every inserted key, len()==n, hash_bits()==b, contains_unaligned agrees where admissible; non-members are a structurally disjoint family (odd integers / 'q'-prefixed strings): the number of positives among N probes (N = 20000 for b<=8, 50*2^b for b<=12) must lie within N*2^-b +- (7*sqrt(N p (1-p)) + 4), two-sided when N*2^-b >= 50. Non-trivial: n>=1 and at least 10^4 probes; distinct = distinct hash of the decoded spec."
     }
     fn run(&self, data: &[u8], cx: &mut Ctx) -> R {
         let (mode, rest) = data.split_first().unwrap_or((&0, &[]));
@@ -167,6 +169,13 @@ impl Property for C08 {
             let j = u64::from_le_bytes(b);
             cx.label("enumerated-n");
             Spec { row: ((j / 61) % N_ROWS as u64) as u8, n: (j % 61) as usize, key_style: 0, bits_sel: (j % 14) as u8, cfg: Cfg::default() }
+        } else if *mode == 3 {
+            let mut b = [0u8; 8];
+            b[..rest.len().min(8)].copy_from_slice(&rest[..rest.len().min(8)]);
+            // shifted by one against C07 so that the two properties pair sizes and peelers differently
+            let s7 = crate::c07::peeling_spec(u64::from_le_bytes(b) as usize + 24 + 1);
+            cx.label("peeling-regime");
+            Spec { row: s7.row, n: s7.n, key_style: 0, bits_sel: (s7.val_bits % 14) as u8, cfg: s7.cfg }
         } else {
             let mut u = Unstructured::new(rest);
             let s7 = crate::c07::decode_spec(&mut u, *mode, cx.tier);
